@@ -16,3 +16,6 @@ def run(v, tier, seed, replay):
                                       assumptions=["scripted inner stream/sink (futures-core / futures-sink traits), polled by hand"])
     if not v.violations:
         c13.check_last_poll(v, cases, impl)
+    if not replay and not v.violations:
+        from props import c09
+        c09.run_scenarios(v, {"recovery-adapter-%s-%d" % (k, c): c09.sc_recovery_adapter(c, k) for k in KINDS for c in (0, 1)}, with_model=True, jobs=4)
